@@ -107,7 +107,7 @@ func unsafeRel(safe, unsafe []byte) string {
 func runC10(c *Ctx) {
 	c.Rep.Rule = "a case is (extension set, document); the 8 combinations of XHTML/HardWraps/Unsafe are rendered and the three rewrite relations checked; distinct by hash; non-trivial = the outputs differ under some option or the tree has a void element, soft break or raw HTML"
 	var cfgs []Cfg
-	for _, e := range []string{"core", "gfm", "deflist", "footnote", "typo", "gfm+footnote"} {
+	for _, e := range []string{"core", "gfm", "deflist", "footnote", "typo", "gfm+footnote", "gfm+task", "gfm+strike", "gfm+table", "gfm+linkify", "gfm+gfm4", "footnote+footnote"} {
 		for k := 0; k < 8; k++ {
 			// table alignment pinned to the style method
 			cfgs = append(cfgs, Cfg{Ext: e, TableAlign: 2, Unsafe: k&1 != 0, XHTML: k&2 != 0, HardWraps: k&4 != 0})
@@ -134,7 +134,38 @@ func runC10(c *Ctx) {
 			return "", false // the base variant drives the comparison of its 8 siblings
 		}
 		outs := map[rend][]byte{}
-		doTree := bytes.HasPrefix(d, []byte{}) && (len(d)%7 == 0 || len(d) < 12 || bytes.Contains(d, []byte("|")) || bytes.Contains(d, []byte("[^")))
+		// the sets that register an extension twice are there for the relation oracle only, and
+		// on the documents that use the doubled extension
+		dup := strings.Count(m.cf.Ext, "+") == 1 && m.cf.Ext != "gfm+footnote"
+		if dup {
+			has := func(subs ...string) bool {
+				for _, x := range subs {
+					if bytes.Contains(d, []byte(x)) {
+						return true
+					}
+				}
+				return false
+			}
+			use := false
+			switch m.cf.Ext {
+			case "gfm+task":
+				use = has("[ ]", "[x]", "[X]")
+			case "gfm+strike":
+				use = has("~")
+			case "gfm+table":
+				use = has("|")
+			case "gfm+linkify":
+				use = has("http", "www", "@", "ftp")
+			case "gfm+gfm4":
+				use = has("[ ]", "[x]", "~~", "|-", "http")
+			case "footnote+footnote":
+				use = has("[^")
+			}
+			if !use || len(d) > 200 {
+				return "", false
+			}
+		}
+		doTree := !dup && (len(d)%7 == 0 || len(d) < 12 || bytes.Contains(d, []byte("|")) || bytes.Contains(d, []byte("[^")))
 		for _, s := range all {
 			if s.cf.Ext != m.cf.Ext {
 				continue
